@@ -514,38 +514,8 @@ def r4b(ctx):
 
 
 def _poly(t):
-    """polynomial normal form of an integer-valued E6 term: {sorted tuple of atom reprs: coefficient} (products distributed; len(X) is one atom per sequence)"""
     from .. import e6
-    if isinstance(t, tuple) and t:
-        if t[0] == "lit":
-            v = str(t[1]).replace("_", "").replace("usize", "")
-            if v.isdigit():
-                return {(): int(v)} if int(v) else {}
-        if t[0] == "bin" and t[1] in ("Add", "Sub"):
-            a, b = _poly(t[2]), _poly(t[3])
-            out = dict(a)
-            for k, v in b.items():
-                out[k] = out.get(k, 0) + (v if t[1] == "Add" else -v)
-                if out[k] == 0:
-                    del out[k]
-            return out
-        if t[0] == "bin" and t[1] == "Mul":
-            a, b = _poly(t[2]), _poly(t[3])
-            out = {}
-            for k1, v1 in a.items():
-                for k2, v2 in b.items():
-                    k = tuple(sorted(k1 + k2))
-                    out[k] = out.get(k, 0) + v1 * v2
-                    if out[k] == 0:
-                        del out[k]
-            return out
-        if t[0] == "un" and t[1] == "Deref":
-            return _poly(t[2])
-        if t[0] == "cast" and len(t) == 3 and t[2] in ("usize", "u64"):
-            return _poly(t[1])
-        if t[0] == "call" and t[1].rsplit("::", 1)[-1] == "len" and len(t[2]) == 1:
-            return {(repr(("len", e6.strip_upd(t[2][0]))),): 1}
-    return {(repr(t),): 1}
+    return e6.poly(t)
 
 
 def r4c(ctx):
